@@ -1,5 +1,5 @@
 (* RunC01.v — correspondence runner for C01: decode a case, run the model, judge the SDK. *)
-Require Import Ommx.Num Ommx.Poly Ommx.Msg Ommx.Eval Ommx.Tree.
+Require Import Ommx.Num Ommx.Poly Ommx.Msg Ommx.Eval Ommx.Tree Ommx.FEval Ommx.F64.
 From Coq Require Import String.
 Open Scope string_scope.
 
@@ -32,8 +32,46 @@ Definition judge_eval (f : function) (s : state) (r : tree) : tree :=
       end
   end.
 
+(* float stream: arbitrary finite binary64 data.  The SDK's answer must be, bit for bit, the
+   evaluation with every operation rounded to nearest-even at 53 bits (F64.rnd53), which
+   F64.f64_eval_bound places within ((1+2^-53)^K - 1) * magnitude of the exact value.  The
+   in-range test excludes results where binary64 would be subnormal or overflow. *)
+Definition in_normal_range (v : Qc) : bool :=
+  qeqb v 0 || (qleb (q2 (-1022)) (qabs v) && qltb (qabs v) (q2 1024)).
+Definition judge_eval_f (f : function) (s : state) (r : tree) : tree :=
+  match fn_eval f s, ffn_eval rnd53 f s with
+  | Some (v, ids), Some vh =>
+      match ok_payload r with
+      | Some (L [rv; rids]) =>
+          match d_ext rv, d_list d_N rids with
+          | Some (Fin q), Some ids' =>
+              if negb (in_normal_range vh) then agree ["range-skip"; kind_tag f]
+              else if negb (qeqb q vh) then disagree "value (rounded evaluation)" (e_num vh)
+              else if negb (qleb (qabs (q - v)) ((gpow u53 (fn_ops f) - 1) * fn_mag f s))
+                   then disagree "value outside the proved rounding bound" (e_num v)
+              else if negb (set_eqb ids ids') then disagree "used ids" (e_list e_N ids)
+              else agree [(if qeqb vh v then "float-exact" else "float-rounded"); kind_tag f]
+          | Some _, Some _ => disagree "value (non-finite)" (e_num vh)
+          | _, _ => badresult "evaluate_f: result shape"
+          end
+      | _ =>
+          if is_err r || is_panic r
+          then disagree "evaluate must succeed" (L [e_num vh; e_list e_N ids])
+          else badresult "evaluate_f: result shape"
+      end
+  | None, None =>
+      if is_err r then agree ["err"; kind_tag f]
+      else disagree "evaluate must fail: a variable of the function has no value" (A "err")
+  | _, _ => badcase "evaluate_f: exact and rounded models disagree on success"
+  end.
+
 Definition run_C01 (case : tree) : tree :=
   match case with
+  | L [A "evaluate_f"; L [f; s]; r] =>
+      match d_function f, d_state s with
+      | Some f', Some s' => judge_eval_f f' s' r
+      | _, _ => badcase "evaluate_f: input"
+      end
   | L [A "evaluate"; L [f; s]; r] =>
       match d_function f, d_state s with
       | Some f', Some s' => judge_eval f' s' r
